@@ -1,3 +1,4 @@
+import SaramaVerif.Model.SyncShim
 import SaramaVerif.Driver.Util
 import SaramaVerif.Model.Producer
 import SaramaVerif.Model.IdemBroker
@@ -316,6 +317,7 @@ structure DS where
   rmax : Nat := 0                  -- Producer.Retry.Max of the scenario
   bpOn : Bool := false             -- broker workers are replayed (not idempotent)
   bws : BPW.World := {}            -- the broker workers of the scenario
+  sy : Model.SyncShim.St := {}     -- SyncProducer shim (expectation slots) of the scenario
 
 def showVerdict : Model.IdemBroker.Verdict → String
   | .appended b => s!"app {b}"
@@ -351,7 +353,7 @@ def step (d : DS) (t : List String) : DS × String :=
   match t with
   | ["reset", rm, ic, idem] =>
     ({ st := init { retryMax := nat! rm, icepts := nat! ic, idem := idem = "1" }, failed := false, brokers := [], pps := [],
-       rmax := nat! rm, bpOn := idem != "1", bws := {} }, "ok")
+       rmax := nat! rm, bpOn := idem != "1", bws := {}, sy := {} }, "ok")
   | ["bb", p, epoch, firstSeq, payloads] =>
     -- one batch arriving at the leader of partition p (simulated cluster ↔ Model.IdemBroker.arrive)
     let st := getB d.brokers (int! p)
@@ -381,6 +383,22 @@ def step (d : DS) (t : List String) : DS × String :=
           else match BPW.bpCheck d.rmax d.bws kind (int! id) (int! a) (int! b) (int! p) with
             | .ok bws' => ({ d with st := s', pps := pps', bws := bws' }, "ok")
             | .error m => ({ d with failed := true }, s!"reject: {m}")
+  | ["sy", "submit", id] =>
+    match Model.SyncShim.step d.sy (.submit (int! id)) with
+    | .ok s' => ({ d with sy := s' }, "ok")
+    | .error m => (d, s!"reject: {m}")
+  | ["sy", "event", id, o] =>
+    match Model.SyncShim.step d.sy (.event (int! id) (if o = "ok" then .ok else .err 0)) with
+    | .ok s' => ({ d with sy := s' }, "ok")
+    | .error m => (d, s!"reject: {m}")
+  | ["sy", "read", id] =>
+    match Model.SyncShim.step d.sy (.read (int! id)) with
+    | .ok s' => ({ d with sy := s' },
+        match s'.returns.head? with
+        | some (_, .ok) => "ret ok"
+        | some (_, .err _) => "ret err"
+        | none => "reject: no return recorded")
+    | .error m => (d, s!"reject: {m}")
   | ["end", c] =>
     if d.failed then (d, "ok")
     else if c = "1" ∧ ¬ d.st.closed then (d, "reject: channels closed without close event")
